@@ -217,6 +217,20 @@ class Hang(Exception):
 SKIP = "skip: an expected event timed out, the schedule could not be forced (no verdict)"
 
 
+@contextlib.contextmanager
+def short_waits(seconds: float = 4.0):
+    """While a failing case is being shrunk an expected event is awaited for `seconds` only.  Harmless: a
+    candidate whose schedule could not be forced in time is judged on its results alone (assertions that hold
+    for every schedule), and a smaller replay is a convenience, never a verdict."""
+    global EVENT_WAIT_S  # noqa: PLW0603
+    old = EVENT_WAIT_S
+    EVENT_WAIT_S = min(old, seconds)
+    try:
+        yield
+    finally:
+        EVENT_WAIT_S = old
+
+
 def unusable(obs: dict[str, Any]) -> str | None:
     """Reason why a gated run cannot give any verdict (time-outs of the machinery), or None."""
     if obs.get("hang") is not None:
@@ -1063,11 +1077,49 @@ def disc_pool_view(case) -> dict[str, Any]:
     n = disc_n(case)
     outcomes = ["F" if i in case["fail"] else "ok" for i in range(n)]
     return {"n_procs": case["n_procs"], "outcomes": outcomes, "backend": case["backend"], "lazy": False,
-            "script": case["script"], "reraise": False, "no_cb": case["api"] in ("chain", "chainlin")}
+            "script": case["script"], "reraise": False, "no_cb": case["api"] in ("chain", "chainlin"),
+            "ack_done": any(disc_scale(d) is not None for d in case["discs"])}
 
 
 def disc_n(case) -> int:
-    return len(case["xs"]) if case["api"] == "exec1" else len(case["discs"])
+    return len(case["xs"]) if case["api"] in ("exec1", "lin1") else len(case["discs"])
+
+
+def disc_scale(d) -> Fraction | None:
+    """In-place factor of a discipline spec `[a, b, out]` / `[a, b, out, c]` (None: the discipline only reads)."""
+    return Fraction(d[3]) if len(d) > 3 and d[3] is not None else None
+
+
+# --- protocol lines of the executor of discipline tasks (Model/C13.lean section 6, `einit` / `ecall`)
+
+
+def eff_task(j: int, own, kind: str, c, a, b, fault: str) -> str:
+    """`j:own:kind:c:a:b:fault` — task run on object `j`; own input (or `_`: the array the object holds);
+    kind E|L|X; in-place factor (or `_`); output a*x+b / Jacobian a; fault o|r|j|R|J."""
+    return f"{j}:{'_' if own is None else rat(Fraction(own))}:{kind}:{'_' if c is None else rat(Fraction(c))}:{rat(Fraction(a))}:{rat(Fraction(b))}:{fault}"
+
+
+def eff_obj(val=0, failed: bool = False, writable: bool = True) -> str:
+    return f"{rat(Fraction(val))}:{int(failed)}:{int(writable)}"
+
+
+def eff_init_line(threaded: bool, n_procs: int, objs: list[str], tasks: list[str]) -> str:
+    return f"einit {int(threaded)} {n_procs} {';'.join(objs) or '[]'} {';'.join(tasks) or '[]'}"
+
+
+def eff_kind(api: str, execute: bool) -> str:
+    return "E" if api in ("exec", "exec1", "chain") else ("L" if execute else "X")
+
+
+def model_failed_flags(answers: list[str]) -> list[bool] | None:
+    """`failed` flags of the objects in the last state the effectful executor printed."""
+    for a in reversed(answers):
+        st = parse_state(a)
+        if "mem" in st:
+            if st["mem"] == "[]":
+                return []
+            return [tok.split(":")[1] == "1" for tok in st["mem"].split(";")]
+    return None
 
 
 def disc_inputs(case) -> list[Fraction]:
@@ -1081,6 +1133,17 @@ def disc_init_line(case) -> str:
     xs = disc_inputs(case)
     specs = []
     lin = case["api"] in ("lin", "chainlin")
+    api = case["api"]
+    if api in ("exec", "exec1", "lin", "lin1"):
+        # tasks = calls of `_Functor.__call__` on discipline objects (status, in-place input): effectful executor
+        one = api in ("exec1", "lin1")
+        kind = eff_kind(api, case.get("execute", True))
+        fault = "j" if (kind != "E" and case.get("gate_on", "run") == "jac") else "r"
+        tasks = []
+        for i in range(disc_n(case)):
+            d = case["discs"][0 if one else i]
+            tasks.append(eff_task(0 if one else i, xs[i], kind, disc_scale(d), d[0], d[1], fault if i in case["fail"] else "o"))
+        return eff_init_line(case["backend"] == "thread", case["n_procs"], [eff_obj()] * len(case["discs"]), tasks)
     if case["api"] == "exec1":
         a, b, _ = case["discs"][0]
         fails = [rat(xs[i]) for i in case["fail"]]
@@ -1117,28 +1180,46 @@ def run_disc_case(case) -> dict[str, Any]:
     tok: list[int] = []
     made: dict[str, Any] = {}
 
+    opts = case.get("opts", {})
+    made["cb2"], made["submitted"] = [], []
+
     def launch(gate, cb):
         tok.append(c13_disc.register(gate))
-        if api == "exec1":
-            a, b, out = case["discs"][0]
+        inpl = [None if disc_scale(d) is None else float(disc_scale(d)) for d in case["discs"]]
+        if api in ("exec1", "lin1"):
+            a, b, out = case["discs"][0][:3]
             key_of = {(float(x),): i for i, x in enumerate(xs)}
-            ds = [GatedAffine("D0", a, b, out, tok[0], key_of=key_of, fail_keys=tuple(case["fail"]))]
+            ds = [GatedAffine("D0", a, b, out, tok[0], key_of=key_of, fail_keys=tuple(case["fail"]),
+                              gate_on=case.get("gate_on", "run"), inplace=inpl[0])]
         else:
-            ds = [GatedAffine(f"D{i}", a, b, out, tok[0], key=i, fail_keys=(i,) if i in case["fail"] else (),
-                              gate_on=case.get("gate_on", "run"))
-                  for i, (a, b, out) in enumerate(case["discs"])]
+            ds = [GatedAffine(f"D{i}", d[0], d[1], d[2], tok[0], key=i, fail_keys=(i,) if i in case["fail"] else (),
+                              gate_on=case.get("gate_on", "run"), inplace=inpl[i])
+                  for i, d in enumerate(case["discs"])]
         made["ds"] = ds
         inputs = [{"x": array([float(x)])} for x in xs]
+        kw: dict[str, Any] = {}
+        if opts.get("wait"):
+            kw["wait_time_between_fork"] = opts["wait"]
+        ekw: dict[str, Any] = {}
+        if opts.get("submitted_cb"):
+            ekw["task_submitted_callback"] = lambda: made["submitted"].append(1)
+
+        def cbs(first):
+            # `exec_callback` may be one callable or an iterable of callables (every one is called per result)
+            return [first, lambda i, _o: made["cb2"].append(i)] if opts.get("cb_list") else first
+
         if api in ("exec", "exec1"):
             out_of = (lambda i: ds[0].out_name) if api == "exec1" else (lambda i: ds[i].out_name)
-            pe = DiscParallelExecution(ds, n_processes=case["n_procs"], use_threading=thr)
-            return pe.execute(inputs, exec_callback=lambda i, data: cb(i, _scalar(data[out_of(i)])))
-        if api == "lin":
+            pe = DiscParallelExecution(ds, n_processes=case["n_procs"], use_threading=thr, **kw)
+            return pe.execute(inputs, exec_callback=cbs(lambda i, data: cb(i, _scalar(data[out_of(i)]))), **ekw)
+        if api in ("lin", "lin1"):
             for d in ds:
                 d.add_differentiated_inputs(["x"])
                 d.add_differentiated_outputs([d.out_name])
-            pl = DiscParallelLinearization(ds, n_processes=case["n_procs"], use_threading=thr)
-            return pl.execute(inputs, exec_callback=lambda i, wd: cb(i, _scalar(wd.jacobian[ds[i].out_name]["x"])))
+            out_of = (lambda i: ds[0].out_name) if api == "lin1" else (lambda i: ds[i].out_name)
+            pl = DiscParallelLinearization(ds, n_processes=case["n_procs"], use_threading=thr,
+                                           execute=case.get("execute", True), **kw)
+            return pl.execute(inputs, exec_callback=cbs(lambda i, wd: cb(i, _scalar(wd.jacobian[out_of(i)]["x"]))), **ekw)
         chain = MDOParallelChain(ds, use_threading=thr, n_processes=case["n_procs"])
         made["chain"] = chain
         if api == "chain":
@@ -1153,6 +1234,8 @@ def run_disc_case(case) -> dict[str, Any]:
     ds = made.get("ds", [])
     obs["disc_data"] = [{k: _scalar(v) for k, v in d.io.data.items()} for d in ds]
     obs["disc_jac"] = [{o: {i: _scalar(m) for i, m in row.items()} for o, row in (d.jac or {}).items()} for d in ds]
+    obs["failed_status"] = [d.execution_status.value == d.execution_status.Status.FAILED for d in ds]
+    obs["cb2"], obs["submitted"] = list(made["cb2"]), len(made["submitted"])
     return obs
 
 
@@ -1166,7 +1249,7 @@ def disc_result_string(case, obs) -> str:
         if api in ("exec", "exec1"):
             outs = [case["discs"][0 if api == "exec1" else i][2] for i in range(len(val))]
             vals = [None if d is None else _scalar(d[o]) for d, o in zip(val, outs)]
-        elif api == "lin":
+        elif api in ("lin", "lin1"):
             vals = []
             for j in val:
                 if j is None:
@@ -1194,57 +1277,72 @@ def disc_oracle(case, obs) -> list[tuple[str, str]]:
     xs = disc_inputs(case)
     n = disc_n(case)
     dd = case["discs"]
-    spec = [dd[0] if api == "exec1" else dd[i] for i in range(n)]
+    one = api in ("exec1", "lin1")
+    lin = api in ("lin", "lin1")
+    spec = [dd[0] if one else dd[i] for i in range(n)]
     okk = [i not in case["fail"] for i in range(n)]
-    if api in ("exec", "exec1", "lin"):
+
+    def out_value(i) -> Fraction:
+        """What discipline i computes alone from ITS input: a x + b, of the input scaled in place if it works in place."""
+        c = disc_scale(spec[i])
+        return Fraction(spec[i][0]) * (xs[i] if c is None else c * xs[i]) + Fraction(spec[i][1])
+
+    if api in ("exec", "exec1", "lin", "lin1"):
         if kind != "returned":
             return [("raises", f"{api} raised {val!r}")]
         if not (isinstance(val, list) and len(val) == n):
             return [("positional-results", f"{api}: {len(val) if isinstance(val, list) else val!r} results for {n} inputs "
                      f"(failing tasks {case['fail']}): results are not positionally matched to the inputs")]
         for i in range(n):
-            a, b, out = spec[i]
+            a, b, out = spec[i][:3]
             if not okk[i]:
                 if val[i] is not None:
                     bad.append(("positional-results", f"{api}: slot {i} of a failing task holds {val[i]!r}"))
                 continue
             if val[i] is None:
-                bad.append(("positional-results", f"{api}: slot {i} is None although task {i} succeeds"))
+                bad.append(("positional-results", f"{api}: slot {i} is None although task {i} succeeds: the failure of "
+                                                  f"another task (failing tasks {case['fail']}) leaked into it"))
                 continue
-            if api == "lin":
+            if lin:
                 got = _scalar(val[i].get(out, {}).get("x")) if isinstance(val[i], dict) else None
                 want = Fraction(a)
             else:
                 got = _scalar(val[i].get(out))
-                want = Fraction(a) * xs[i] + Fraction(b)
+                want = out_value(i)
                 gx = _scalar(val[i].get("x"))
-                if not (gx is not None and common.F(gx) == xs[i]):
+                if disc_scale(spec[i]) is None and not (gx is not None and common.F(gx) == xs[i]):
                     bad.append(("positional-results", f"{api}: slot {i} holds the input {gx}, expected {xs[i]}"))
             if not (got is not None and common.is_finite_num(got) and common.F(got) == want):
                 bad.append(("positional-results", f"{api}: slot {i} holds {got}, the sequential computation gives {want}"))
-        exp_cbs = sorted((i, float(Fraction(spec[i][0]) if api == "lin" else Fraction(spec[i][0]) * xs[i] + Fraction(spec[i][1])))
-                         for i in range(n) if okk[i])
+        exp_cbs = sorted((i, float(Fraction(spec[i][0]) if lin else out_value(i))) for i in range(n) if okk[i])
         if not (sorted(obs["cb_log"]) == exp_cbs):
             bad.append(("callbacks", f"{api}: callback calls {obs['cb_log']} are not once per successful task with the matching index {exp_cbs}"))
-        if api != "exec1":
+        if case.get("opts", {}).get("cb_list") and not (sorted(obs["cb2"]) == [i for i, _ in exp_cbs]):
+            bad.append(("callbacks", f"{api}: the second callback of the list was called for {sorted(obs['cb2'])}, expected once per "
+                                     f"successful task {[i for i, _ in exp_cbs]}"))
+        if case.get("opts", {}).get("submitted_cb") and obs["submitted"] != 1:
+            bad.append(("submitted-callback", f"{api}: task_submitted_callback called {obs['submitted']} times"))
+        if not one:
             for i in range(n):
                 if not okk[i]:
                     continue
-                a, b, out = spec[i]
-                if api == "exec":
+                a, b, out = spec[i][:3]
+                if api == "exec" or (lin and case.get("execute", True)):
                     got = obs["disc_data"][i].get(out)
-                    want = Fraction(a) * xs[i] + Fraction(b)
-                else:
+                    want = out_value(i)
+                    if not (got is not None and common.F(got) == want):
+                        bad.append(("discipline-state", f"{api}: discipline {i} holds {out}={got} after the parallel run, expected {want}"))
+                if lin:
                     got = obs["disc_jac"][i].get(out, {}).get("x")
                     want = Fraction(a)
-                if not (got is not None and common.F(got) == want):
-                    bad.append(("discipline-state", f"{api}: discipline {i} holds {got} after the parallel run, expected {want}"))
+                    if not (got is not None and common.F(got) == want):
+                        bad.append(("discipline-state", f"{api}: discipline {i} holds the Jacobian {got} after the parallel run, expected {want}"))
     else:
         if kind != "returned":
             return [("raises", f"{api} raised {val!r}")]
         # sequential semantics: every discipline sees the chain input; a later discipline wins a shared output name
         exp: dict[str, Fraction] = {}
-        for a, b, out in dd:
+        for a, b, out in (d[:3] for d in dd):
             exp[out] = Fraction(a) if api == "chainlin" else Fraction(a) * xs[0] + Fraction(b)
         for out, want in exp.items():
             got = _scalar(val.get(out)) if api == "chain" else _scalar((val.get(out) or {}).get("x"))
@@ -1257,13 +1355,15 @@ def disc_oracle(case, obs) -> list[tuple[str, str]]:
     return bad
 
 
-def gen_disc_case(rng: common.Rng, api: str | None = None) -> dict[str, Any]:
-    api = api or rng.pick(["exec", "exec", "exec1", "lin", "lin", "chain", "chainlin"])
-    backend = "process" if api == "exec1" else rng.pick(["thread", "thread", "process"])
+def gen_disc_case(rng: common.Rng, api: str | None = None, execute: bool | None = None, fail_some: bool = False,
+                  n_procs: int | None = None) -> dict[str, Any]:
+    api = api or rng.pick(["exec", "exec", "exec1", "lin", "lin", "lin1", "chain", "chainlin"])
+    one = api in ("exec1", "lin1")
+    backend = "process" if one else rng.pick(["thread", "thread", "process"])
     n = rng.randint(2, 5)
     names = ["y0", "y1", "y2", "y3", "y4"]
     discs = []
-    for i in range(1 if api == "exec1" else n):
+    for i in range(1 if one else n):
         out = rng.pick(names[: max(2, n - 1)]) if api in ("chain", "chainlin") else names[i]
         discs.append([rng.randint(1, 5), rng.randint(-3, 3), out])
     if api in ("chain", "chainlin"):
@@ -1275,33 +1375,61 @@ def gen_disc_case(rng: common.Rng, api: str | None = None) -> dict[str, Any]:
         t = rat(Fraction(rng.randint(-12, 12), 4))
         if t not in xs:
             xs.append(t)
-    fail = sorted(rng.subset(range(n), 0.3)) if api in ("exec", "exec1", "lin") and rng.chance(0.5) else []
-    n_procs = rng.pick([1, 2, 2, 3, n])
-    gate_on = "jac" if api == "chainlin" or (api == "lin" and rng.chance(0.5)) else "run"
+    fail = sorted(rng.subset(range(n), 0.3)) if api in ("exec", "exec1", "lin", "lin1") and rng.chance(0.5) else []
+    if fail_some and api in ("exec", "exec1", "lin", "lin1"):
+        # at least one failing task followed (in submission order) by a succeeding one
+        fail = sorted(set(fail) - {n - 1}) or [rng.randint(0, n - 2)]
+    n_procs = n_procs or rng.pick([1, 2, 2, 3, n])
+    lin = api in ("lin", "lin1")
+    if execute is None:
+        execute = not (lin and rng.chance(0.5))
+    gate_on = "jac" if api == "chainlin" or (lin and (not execute or rng.chance(0.5))) else "run"
     case = {"kind": "disc", "api": api, "backend": backend, "n_procs": n_procs, "discs": discs, "xs": xs, "fail": fail,
             "gate_on": gate_on}
+    if lin:
+        case["execute"] = bool(execute)
+    if api in ("exec", "exec1", "lin", "lin1"):
+        # disciplines working in place on their input array (only where `_run` is gated: the bodies are serialised;
+        # the task of an input is looked up from its value before the scaling)
+        if gate_on == "run" and (execute or not lin) and rng.chance(0.4):
+            for d in discs:
+                if rng.chance(0.6):
+                    d.append(rat(Fraction(rng.pick([2, -1, 3, Fraction(1, 2)]))))
+        opts = {}
+        if rng.chance(0.25):
+            opts["cb_list"] = True
+        if rng.chance(0.2):
+            opts["submitted_cb"] = True
+        if rng.chance(0.2):
+            opts["wait"] = 0.001
+        if opts:
+            case["opts"] = opts
     view = disc_pool_view(dict(case, script=[]))
     case["script"] = [list(a) for a in random_script(rng, n, n_procs, view["outcomes"], False, False, rng.pick(["reverse", "uniform"]))]
     return case
 
 
 def describe_disc(case) -> str:
-    return (f"{case['api']} {case['backend']} discs={case['discs']} xs={case['xs']} failing={case['fail']} "
+    return (f"{case['api']} {case['backend']} discs(a, b, output[, in-place factor])={case['discs']} xs={case['xs']} failing={case['fail']} "
+            f"{'execute=' + str(case['execute']) + ' ' if 'execute' in case else ''}raising-in={'_compute_jacobian' if case.get('gate_on') == 'jac' else '_run'} "
+            f"{'options=' + str(case['opts']) + ' ' if case.get('opts') else ''}"
             f"n_processes={case['n_procs']} completion={[a[1] for a in case['script'] if a[0] == 'F']}")
 
 
 def shrink_disc_case(case, key: str):
     def fails(c) -> bool:
         try:
-            return any(k == key for k, _ in disc_oracle(c, run_disc_case(c)))
+            with short_waits():
+                return any(k == key for k, _ in disc_oracle(c, run_disc_case(c)))
         except Exception:  # noqa: BLE001
             return False
 
     cur = case
     rng = common.make_rng(0, "shrink-disc")
     budget = 25
+    t_end = time.time() + SHRINK_S
     improved = True
-    while improved and budget > 0:
+    while improved and budget > 0 and time.time() < t_end:
         improved = False
         n = disc_n(cur)
         cands = []
@@ -1309,7 +1437,7 @@ def shrink_disc_case(case, key: str):
             if n <= 1:
                 break
             c = dict(cur, fail=[i - (i > k) for i in cur["fail"] if i != k])
-            if cur["api"] == "exec1":
+            if cur["api"] in ("exec1", "lin1"):
                 c["xs"] = cur["xs"][:k] + cur["xs"][k + 1:]
             elif cur["api"] in ("chain", "chainlin"):
                 c["discs"] = cur["discs"][:k] + cur["discs"][k + 1:]
@@ -1319,8 +1447,10 @@ def shrink_disc_case(case, key: str):
             view = disc_pool_view(dict(c, script=[]))
             c["script"] = [list(a) for a in random_script(rng, n - 1, c["n_procs"], view["outcomes"], False, False, "reverse")]
             cands.append(c)
-        if cur["backend"] == "process" and cur["api"] != "exec1":
+        if cur["backend"] == "process" and cur["api"] not in ("exec1", "lin1"):
             cands.append(dict(cur, backend="thread"))
+        if cur.get("opts"):
+            cands.append({k: v for k, v in cur.items() if k != "opts"})
         for c in cands:
             budget -= 1
             if budget <= 0:
@@ -1356,20 +1486,42 @@ def check_disc_cases(res: Result, cases: list[dict[str, Any]], deadline: float) 
         res.count(f"{st}:{'out-of-order' if order != sorted(order) else 'in-order'}-completion")
         if case["fail"]:
             res.count(f"{st}:with-failing-tasks")
+            if case["api"] in ("exec1", "lin1") and any(i + 1 not in case["fail"] and i + 1 < disc_n(case) for i in case["fail"]):
+                res.count(f"{st}:discipline-used-again-after-a-failing-task")
+        if "execute" in case:
+            res.count(f"{st}:execute={case['execute']}")
+            res.count(f"{st}:raising-in-{'_compute_jacobian' if case.get('gate_on') == 'jac' else '_run'}")
+        if any(disc_scale(d) is not None for d in case["discs"]):
+            res.count(f"{st}:with-disciplines-writing-into-their-input")
+        for o in sorted(case.get("opts", {})):
+            res.count(f"{st}:option-{o}")
         res.nontrivial(("disc", json.dumps(case, sort_keys=True)))
         res.sample({"stream": st, "case": describe_disc(case), "impl_result": disc_result_string(case, obs),
                     "model_result": ans[-1] if ans else None}, cap=12)
         bad = disc_oracle(case, obs)
+        small, small_bad = case, dict(bad)
         for key, msg in bad:
-            small = shrink_disc_case(case, key)
-            if small is not case:
-                msg = dict(disc_oracle(small, run_disc_case(small))).get(key, msg)
+            if key not in small_bad:
+                small, small_bad = case, dict(bad)
+            if small is case:
+                small = shrink_disc_case(case, key)
+                if small is not case:
+                    with short_waits():
+                        small_bad = dict(disc_oracle(small, run_disc_case(small)))
+                    if key not in small_bad:
+                        small, small_bad = case, dict(bad)
+            msg = small_bad.get(key, msg)
             res.violate("oracle", f"disc-{case['api']}-{key}", f"{msg} [{describe_disc(small)}]"[:900], {"kind": "disc", "case": small})
         diff = compare_with_model(dict(obs, hang=obs["hang"] or "skip-result"), ans)
         if diff is None and obs["hang"] is None:
             want = disc_result_string(case, obs)
             if ans[-1] != want:
                 diff = f"model result `{ans[-1]}`, real `{want}`"
+        if diff is None and obs["hang"] is None and case["backend"] == "thread" and case["api"] in ("exec", "lin"):
+            # threads run the caller's discipline objects: their execution status after the call is the model's
+            flags = model_failed_flags(ans)
+            if flags != obs["failed_status"]:
+                diff = f"execution status FAILED of the disciplines after the call: model {flags}, real {obs['failed_status']}"
         if diff is None:
             res.traces_validated += 1
         elif diff == SKIP:
@@ -1380,7 +1532,348 @@ def check_disc_cases(res: Result, cases: list[dict[str, Any]], deadline: float) 
                 res.violate("correspondence", f"disc-{case['api']}-model-vs-impl",
                             f"worker-pool model and implementation disagree: {diff} [{describe_disc(case)}]",
                             {"kind": "disc", "case": case, "protocol_lines": obs["lines"], "model_answers": ans,
-                             "difference": diff, "correspondence": "Driver/C13.lean transitions S/T/F/C/X + result"})
+                             "difference": diff, "correspondence": "Driver/C13.lean (einit |init) + transitions S/T/F/C/X + result"})
+
+
+# ----------------------------------------------------------------------------- parallel chain of disciplines writing into their input
+# case: {"kind": "chainip", "api": "chain"|"chainlin", "backend": "thread"|"process", "n_procs": int, "deep": bool
+#        (use_deep_copy), "x0": "p/q" (the chain input, non-zero), "discs": [[a, b, out, c|None], ...] (distinct output
+#        names; c: the discipline multiplies its input array IN PLACE by c before computing a x + b), "cache": bool
+#        (disciplines keep their default cache / have none), "script": [...]}
+# MDOParallelChain hands every discipline "a copy of the input data": with use_deep_copy=True (the option made for
+# disciplines working in place) or forked workers (the data are pickled) the disciplines are independent of each other,
+# so whatever the order in which their bodies run each one computes what it computes ALONE on the chain input.
+# `chain`: the gate is at the start of `_run`, before the input is read or written, and the end of `_run` is acknowledged
+# before the next gate is opened: the script is the order of the bodies.  `chainlin`: chain.linearize — the first phase
+# (chain.execute) is not steered, the script is the order of the `_compute_jacobian` calls of the second phase.
+# Out of the quantifier (probe, never a verdict): use_deep_copy=False with threads and a writing discipline (the arrays
+# are then shared read-only: the writer raises).
+
+
+def chainip_writers(case) -> list[int]:
+    return [i for i, d in enumerate(case["discs"]) if disc_scale(d) is not None]
+
+
+def chainip_in_scope(case) -> bool:
+    return bool(case["deep"]) or case["backend"] == "process" or not chainip_writers(case)
+
+
+def chainip_pool_view(case) -> dict[str, Any]:
+    n = len(case["discs"])
+    ro = not chainip_in_scope(case)
+    outcomes = ["F" if (ro and i in chainip_writers(case)) else "ok" for i in range(n)]
+    return {"n_procs": case["n_procs"], "outcomes": outcomes, "backend": case["backend"], "lazy": False,
+            "script": case["script"], "reraise": False, "no_cb": True, "ack_done": True}
+
+
+def chainip_init_line(case) -> str:
+    n = len(case["discs"])
+    thr = case["backend"] == "thread"
+    kind = eff_kind(case["api"], True)
+    x0 = Fraction(case["x0"])
+    # threads: object i = discipline i with the array the chain handed to it (a private writable copy with
+    # use_deep_copy, else the shared array made read-only); processes: the input travels with the task (pickled)
+    objs = [eff_obj(x0, False, bool(case["deep"])) if thr else eff_obj() for _ in range(n)]
+    tasks = [eff_task(i, None if thr else x0, kind, disc_scale(d), d[0], d[1], "o") for i, d in enumerate(case["discs"])]
+    return eff_init_line(thr, case["n_procs"], objs, tasks)
+
+
+def run_chainip_case(case) -> dict[str, Any]:
+    from gemseo.core.chains.parallel_chain import MDOParallelChain
+    from numpy import array
+
+    from harness import c13_disc
+    from harness.c13_disc import GatedAffine
+
+    api = case["api"]
+    n = len(case["discs"])
+    thr = case["backend"] == "thread"
+    x0 = Fraction(case["x0"])
+    tok: list[int] = []
+    made: dict[str, Any] = {}
+
+    def build(token, gated: bool):
+        ds = []
+        for i, d in enumerate(case["discs"]):
+            c = disc_scale(d)
+            g = GatedAffine(f"D{i}", d[0], d[1], d[2], token, key=i if gated else None,
+                            gate_on="run" if api == "chain" else "jac", inplace=None if c is None else float(c))
+            if not case.get("cache", True):
+                g.cache = None
+            ds.append(g)
+        return ds
+
+    def launch(gate, cb):  # noqa: ARG001
+        tok.append(c13_disc.register(gate))
+        ds = build(tok[0], True)
+        made["ds"] = ds
+        chain = MDOParallelChain(ds, use_threading=thr, n_processes=case["n_procs"], use_deep_copy=bool(case["deep"]))
+        made["chain"] = chain
+        x = array([float(x0)])
+        made["x"] = x
+        if api == "chain":
+            return dict(chain.execute({"x": x}))
+        return chain.linearize({"x": x}, compute_all_jacobians=True)
+
+    try:
+        obs = run_gated(chainip_pool_view(case), launch, n, [chainip_init_line(case)])
+    finally:
+        for t in tok:
+            c13_disc.unregister(t)
+    ds = made.get("ds", [])
+    obs["disc_data"] = [{k: _scalar(v) for k, v in d.io.data.items()} for d in ds]
+    obs["disc_jac"] = [{o: {i: _scalar(m) for i, m in row.items()} for o, row in (d.jac or {}).items()} for d in ds]
+    obs["failed_status"] = [d.execution_status.value == d.execution_status.Status.FAILED for d in ds]
+    obs["caller_x"] = _scalar(made["x"]) if "x" in made else None
+    obs["chain_x"] = _scalar(made["chain"].io.data.get("x")) if "chain" in made else None
+    # the sequential counterpart: a fresh discipline of the same kind, run alone on a private copy of the chain input
+    twin = []
+    try:
+        for g in build(None, False):
+            out = g.execute({"x": array([float(x0)])})
+            val = _scalar(out[g.out_name])
+            jac = None
+            if api == "chainlin":
+                jac = _scalar(g.linearize({"x": array([float(x0)])}, compute_all_jacobians=True)[g.out_name]["x"])
+            twin.append((val, jac))
+    except Exception as e:  # noqa: BLE001
+        obs["twin_error"] = f"{common.exc_class(e)}: {e}"
+    obs["twin"] = twin
+    return obs
+
+
+def chainip_result_string(case, obs) -> str:
+    kind, val = obs["result"]
+    if kind != "returned":
+        return "hang" if kind == "hang" else "final=1 raised:" + common.exc_class(val)
+    try:
+        if case["api"] == "chain":
+            vals = [obs["disc_data"][i].get(d[2]) for i, d in enumerate(case["discs"])]
+        else:
+            vals = [obs["disc_jac"][i].get(d[2], {}).get("x") for i, d in enumerate(case["discs"])]
+        return "final=1 returned " + (",".join(common.orat(v) for v in vals) or "[]")
+    except Exception as e:  # noqa: BLE001
+        return f"final=1 returned?{type(e).__name__}"
+
+
+def chainip_oracle(case, obs) -> list[tuple[str, str]]:
+    """Property text: a parallel chain produces the same data and Jacobians as its sequential counterpart, for any
+    completion order — every discipline gives what it gives alone on (its own copy of) the chain input, the
+    disciplines do not see each other's in-place work, the chain input is what the caller passed."""
+    if unusable(obs) or not chainip_in_scope(case):
+        return []
+    api = case["api"]
+    kind, val = obs["result"]
+    if kind != "returned":
+        return [("raises", f"{api} raised {val!r}")]
+    if "twin_error" in obs:
+        return [("twin", f"the sequential counterpart raised {obs['twin_error']}")]
+    bad: list[tuple[str, str]] = []
+    x0 = Fraction(case["x0"])
+    n = len(case["discs"])
+
+    def eq(g, w) -> bool:
+        return g is not None and common.is_finite_num(g) and common.F(g) == w
+
+    for i, d in enumerate(case["discs"]):
+        a, b, out = d[:3]
+        c = disc_scale(d)
+        want = Fraction(a) * (x0 if c is None else c * x0) + Fraction(b)
+        who = f"discipline {i} ({'scales its input in place by ' + str(c) + ', ' if c is not None else 'reads its input, '}{out} = {a} x + {b})"
+        tv, tj = obs["twin"][i]
+        if not (eq(tv, want) and (api == "chain" or eq(tj, Fraction(a)))):
+            bad.append(("twin", f"{who} run alone on x={x0} gives {tv} (Jacobian {tj}), closed form {want} ({a})"))
+            continue
+        if api == "chain":
+            got = _scalar(val.get(out))
+            if not eq(got, want):
+                bad.append(("chain-data", f"the chain gives {out} = {got}; {who} run alone on the chain input x={x0} gives {want}: "
+                                          f"its result depends on which other discipline ran before"))
+        else:
+            got = _scalar((val.get(out) or {}).get("x"))
+            if not eq(got, Fraction(a)):
+                bad.append(("chain-jacobian", f"the chain gives d{out}/dx = {got}; {who} linearized alone gives {a}"))
+        got = obs["disc_data"][i].get(out)
+        if not eq(got, want):
+            bad.append(("discipline-data", f"after the parallel {api}, {who} holds {out} = {got}; run alone on the chain input x={x0} it holds {want}"))
+    if not (eq(obs["chain_x"], x0) and eq(obs["caller_x"], x0)):
+        bad.append(("chain-input-modified", f"the chain input x={x0} became {obs['chain_x']} in the chain data and {obs['caller_x']} in the caller's array"))
+    cnt = Counter(obs["started"])
+    if any(cnt.get(k, 0) != 1 for k in range(n)) or any(k not in range(n) for k in cnt):
+        bad.append(("task-once", f"{api}: tasks were started {dict(cnt)!r}, expected each exactly once"))
+    seen: dict[str, str] = {}
+    for key, msg in bad:
+        seen.setdefault(key, msg)
+    return list(seen.items())
+
+
+def gen_chainip_case(rng: common.Rng, backend: str | None = None, deep: bool | None = None, api: str | None = None,
+                     n_procs: int | None = None, writer_first: bool = False) -> dict[str, Any]:
+    backend = backend or rng.pick(["thread", "thread", "thread", "process"])
+    api = api or rng.pick(["chain", "chain", "chain", "chainlin"])
+    deep = rng.chance(0.8) if deep is None else deep
+    n = rng.randint(2, 4)
+    discs: list[list] = [[i + 2, rng.randint(-3, 3), f"y{i}", None] for i in range(n)]
+    writers = [0] if writer_first else [rng.randint(0, n - 1)]
+    for i in range(n):
+        if i not in writers and rng.chance(0.25) and len(writers) < n - 1:
+            writers.append(i)
+    if not deep and backend == "thread":
+        if rng.chance(0.5):
+            writers = []  # in the quantifier: the shared read-only arrays are only read
+        else:
+            api = "chain"  # probe; chain.linearize would stop in its first, ungated, phase
+    for i in writers:
+        discs[i][3] = rat(Fraction(rng.pick([2, -1, 3, Fraction(1, 2), -2])))
+    x0 = Fraction(rng.pick([-1, 1]) * rng.randint(1, 12), 4)
+    n_procs = n_procs or rng.pick([1, 2, n, n])
+    case = {"kind": "chainip", "api": api, "backend": backend, "n_procs": n_procs, "deep": bool(deep), "x0": rat(x0),
+            "discs": discs, "cache": rng.chance(0.5)}
+    view = chainip_pool_view(dict(case, script=[]))
+    if writer_first:
+        script = random_script(rng, n, n_procs, view["outcomes"], False, False, "uniform")
+        m = Mirror(n, n_procs, view["outcomes"], False, False)
+        script = []
+        while not m.done():
+            a = min(a for a in m.actions() if a[0] == "F")  # bodies in submission order: the writer runs first
+            m.apply(a)
+            script.append(a)
+    else:
+        script = random_script(rng, n, n_procs, view["outcomes"], False, False, rng.pick(["reverse", "uniform", "uniform"]))
+    case["script"] = [list(a) for a in script]
+    return case
+
+
+def describe_chainip(case) -> str:
+    return (f"MDOParallelChain({case['api']}) {case['backend']} use_deep_copy={case['deep']} n_processes={case['n_procs']} x={case['x0']} "
+            f"discs(a, b, output, in-place factor)={case['discs']} {'default caches' if case.get('cache', True) else 'no cache'} "
+            f"order of the bodies={[a[1] for a in case['script'] if a[0] == 'F']}")
+
+
+def shrink_chainip_case(case, key: str):
+    def fails(c) -> bool:
+        try:
+            with short_waits():
+                return any(k == key for k, _ in chainip_oracle(c, run_chainip_case(c)))
+        except Exception:  # noqa: BLE001
+            return False
+
+    cur = case
+    rng = common.make_rng(0, "shrink-chainip")
+    budget = 12
+    t_end = time.time() + SHRINK_S
+    improved = True
+    while improved and budget > 0 and time.time() < t_end:
+        improved = False
+        n = len(cur["discs"])
+        cands = []
+        for k in range(n):
+            if n <= 2:
+                break
+            c = dict(cur, discs=cur["discs"][:k] + cur["discs"][k + 1:])
+            if not chainip_writers(c):
+                continue
+            order = [a[1] - (a[1] > k) for a in cur["script"] if a[0] == "F" and a[1] != k]
+            m = Mirror(n - 1, c["n_procs"], ["ok"] * (n - 1), False, False)
+            ok = True
+            for j in order:
+                if ("F", j) not in m.actions():
+                    ok = False
+                    break
+                m.apply(("F", j))
+            c["script"] = [["F", j] for j in order] if ok and m.done() else [
+                list(a) for a in random_script(rng, n - 1, c["n_procs"], ["ok"] * (n - 1), False, False, "uniform")]
+            cands.append(c)
+        for c in cands:
+            budget -= 1
+            if budget <= 0 or time.time() > t_end:
+                break
+            if fails(c):
+                cur = c
+                improved = True
+                break
+    return cur
+
+
+def check_chainip_cases(res: Result, cases: list[dict[str, Any]], deadline: float) -> None:
+    runs = []
+    failing: set[str] = set()
+    for case in cases:
+        if time.time() > deadline:
+            res.notes.append(f"chainip: stopped at the time limit after {len(runs)} of {len(cases)} cases")
+            break
+        obs = usable_run(res, "chainip", run_chainip_case, case)
+        if obs is not None:
+            runs.append((case, obs))
+            failing.update(k for k, _ in chainip_oracle(case, obs))
+            if len(failing) >= 3:
+                res.notes.append(f"chainip: stopped after {len(runs)} of {len(cases)} cases, oracle failures {sorted(failing)} are reported")
+                break
+    lines: list[str] = []
+    for _, obs in runs:
+        lines.extend(obs["lines"])
+    answers = common.run_lean_driver(PID, lines)
+    pos = 0
+    reported: set[str] = set()
+    for case, obs in runs:
+        ans = answers[pos: pos + len(obs["lines"])]
+        pos += len(obs["lines"])
+        res.evaluations += 1
+        order = [a[1] for a in case["script"] if a[0] == "F"]
+        st = f"chainip-{case['api']}"
+        scope = chainip_in_scope(case)
+        res.count(f"{st}:{case['backend']}:use_deep_copy={case['deep']}" + ("" if scope else ":probe-writer-on-shared-read-only-array"))
+        res.count(f"chainip:n_processes={'1' if case['n_procs'] == 1 else ('all' if case['n_procs'] >= len(case['discs']) else 'fewer-than-disciplines')}")
+        ws = chainip_writers(case)
+        if any(order.index(w) < order.index(r) for w in ws for r in range(len(order)) if r not in ws):
+            res.count(f"{st}:a-writer-runs-before-a-reader")
+        if len(ws) > 1:
+            res.count(f"{st}:several-writers")
+        if not case.get("cache", True):
+            res.count(f"{st}:disciplines-without-cache")
+        res.nontrivial(("chainip", json.dumps(case, sort_keys=True)))
+        res.sample({"stream": st, "case": describe_chainip(case), "impl_result": chainip_result_string(case, obs),
+                    "model_result": ans[-1] if ans else None, "in_scope": scope}, cap=10)
+        bad = chainip_oracle(case, obs)
+        small, small_bad = case, dict(bad)
+        for key, msg in bad:
+            if f"{st}-{key}" in reported:
+                continue  # one replay per kind of failure is enough (each shrink re-runs the chain several times)
+            reported.add(f"{st}-{key}")
+            if key not in small_bad:
+                small, small_bad = case, dict(bad)
+            if small is case:
+                small = shrink_chainip_case(case, key)
+                if small is not case:
+                    with short_waits():
+                        small_bad = dict(chainip_oracle(small, run_chainip_case(small)))
+                    if key not in small_bad:
+                        small, small_bad = case, dict(bad)
+            msg = small_bad.get(key, msg)
+            res.violate("oracle", f"{st}-{key}", f"{msg} [{describe_chainip(small)}]"[:1100], {"kind": "chainip", "case": small})
+        diff = compare_with_model(dict(obs, hang=obs["hang"] or "skip-result"), ans)
+        if diff is None and obs["hang"] is None and scope:
+            want = chainip_result_string(case, obs)
+            if ans[-1] != want:
+                diff = f"model result `{ans[-1]}`, real `{want}`"
+        if diff is None and obs["hang"] is None and case["backend"] == "thread":
+            flags = model_failed_flags(ans)
+            if flags != obs["failed_status"]:
+                diff = f"execution status FAILED of the disciplines after the call: model {flags}, real {obs['failed_status']}"
+        if diff is None:
+            res.traces_validated += 1
+        elif diff == SKIP:
+            res.count("chainip:schedule-not-forced-timeout")
+        else:
+            res.disagreements += 1
+            if not scope:
+                res.count("chainip:probe-differs-from-model")
+                res.notes.append(f"chainip probe (no verdict): {diff} [{describe_chainip(case)}]"[:400])
+            elif not bad:
+                res.violate("correspondence", f"{st}-model-vs-impl",
+                            f"model of the discipline tasks and implementation disagree: {diff} [{describe_chainip(case)}]"[:1100],
+                            {"kind": "chainip", "case": case, "protocol_lines": obs["lines"], "model_answers": ans,
+                             "difference": diff, "correspondence": "Driver/C13.lean einit + transitions S/T/F/C/X + result"})
 
 
 # ----------------------------------------------------------------------------- derivative approximation stream
@@ -1832,6 +2325,20 @@ def hist_init_line(case, k: int) -> str:
     return f"init {case['n_procs']} {rats(xs)} {';'.join(specs)}"
 
 
+def hist_eff_tasks(case, k: int) -> list[str]:
+    """Tasks of call `k` of a history of a discipline executor, for the `einit` / `ecall` lines (Model section 6)."""
+    call = case["calls"][k]
+    multi = hist_multi(case)
+    kind = eff_kind(case["api"], case.get("execute", True))
+    in_jac = kind != "E" and case.get("gate_on", "run") == "jac"
+    tasks = []
+    for i, (x, o) in enumerate(zip(call["xs"], call["outcomes"])):
+        a, b, _ = case["discs"][i if multi else 0]
+        fault = "o" if o == "ok" else (("J" if in_jac else "R") if o == "S" else ("j" if in_jac else "r"))
+        tasks.append(eff_task(i if multi else 0, x, kind, None, a, b, fault))
+    return tasks
+
+
 def run_hist_case(case) -> dict[str, Any]:
     """Run the successive calls of the history on one executor object; one gated run per call."""
     from gemseo.core.parallel_execution.callable_parallel_execution import CallableParallelExecution
@@ -1859,10 +2366,14 @@ def run_hist_case(case) -> dict[str, Any]:
                 d.add_differentiated_inputs(["x"])
                 d.add_differentiated_outputs([d.out_name])
             ex = DiscParallelLinearization(workers, n_processes=case["n_procs"], use_threading=thr,
-                                           exceptions_to_re_raise=(StopError,))
+                                           exceptions_to_re_raise=(StopError,), execute=case.get("execute", True))
         else:
             ex = DiscParallelExecution(workers, n_processes=case["n_procs"], use_threading=thr,
                                        exceptions_to_re_raise=(StopError,))
+
+    def failed_flags() -> list[bool]:
+        return [d.execution_status.value == d.execution_status.Status.FAILED for d in workers]
+
     all_obs = []
     in_model = True  # every call so far followed the schedule the model was given: the session can continue
     for k, call in enumerate(case["calls"]):
@@ -1895,13 +2406,21 @@ def run_hist_case(case) -> dict[str, Any]:
 
         view = {"n_procs": case["n_procs"], "outcomes": outcomes, "backend": case["backend"], "lazy": bool(call.get("lazy")),
                 "script": call["script"], "reraise": True}
-        first = hist_init_line(case, k) if (k == 0 or not in_model) else f"call {rats([Fraction(x) for x in call['xs']])}"
+        if api == "callable":
+            first = hist_init_line(case, k) if (k == 0 or not in_model) else f"call {rats([Fraction(x) for x in call['xs']])}"
+        elif k == 0 or not in_model:
+            # the discipline objects of the main process as they are now (threads run these very objects)
+            first = eff_init_line(thr, case["n_procs"], [eff_obj(0, f) for f in failed_flags()], hist_eff_tasks(case, k))
+        else:
+            first = "ecall " + ";".join(hist_eff_tasks(case, k))
         try:
             obs = run_gated(view, launch, n, [first])
         finally:
             for t in tok:
                 c13_disc.unregister(t)
         obs["session_line"] = first.split(" ")[0]
+        if api != "callable":
+            obs["failed_status"] = failed_flags()
         all_obs.append(obs)
         if unusable(obs):
             break  # the executor may still be busy: nothing more can be learnt from this history
@@ -2011,7 +2530,7 @@ def hist_result_string(case, obs) -> str:
 
 
 def gen_hist_case(rng: common.Rng, backend: str, api: str | None = None, n_procs: int | None = None,
-                  first_style: str | None = None, n_calls: int | None = None) -> dict[str, Any]:
+                  first_style: str | None = None, n_calls: int | None = None, execute: bool | None = None) -> dict[str, Any]:
     api = api or rng.pick(["callable", "callable", "exec", "lin", "exec1", "lin1"])
     if api in ("exec1", "lin1"):
         backend = "process"  # one discipline object run by several threads at once is not a supported use
@@ -2031,10 +2550,13 @@ def gen_hist_case(rng: common.Rng, backend: str, api: str | None = None, n_procs
             if d[:2] not in [e[:2] for e in discs]:
                 discs.append(d)
         case["discs"] = discs
-        case["gate_on"] = "jac" if api in ("lin", "lin1") and rng.chance(0.5) else "run"
+        if api in ("lin", "lin1"):
+            # DiscParallelLinearization(execute=False) never calls `_run`: the tasks are then gated (and fail) in `_compute_jacobian`
+            case["execute"] = (not rng.chance(0.5)) if execute is None else bool(execute)
+        case["gate_on"] = "jac" if api in ("lin", "lin1") and (not case["execute"] or rng.chance(0.5)) else "run"
     pool = list(range(-20, 21))
     rng.shuffle(pool)
-    first_style = first_style or rng.pick(["stop0", "stop0", "stopmid", "stopmid", "stopany", "fail", "clean"])
+    first_style = first_style or rng.pick(["stop0", "stop0", "stopmid", "stopmid", "stopany", "fail", "failsome", "failsome", "clean"])
     calls = []
     for k, n in enumerate(sizes):
         if api == "callable":
@@ -2052,6 +2574,13 @@ def gen_hist_case(rng: common.Rng, backend: str, api: str | None = None, n_procs
             outcomes = [rng.pick(["ok", "ok", "F", "S"]) for _ in range(n)]
         elif style == "fail":
             outcomes = [rng.pick(["ok", "ok", "F"]) for _ in range(n)]
+        elif style == "failsome":
+            # at least one swallowed failure followed, in submission order, by a succeeding task: the discipline
+            # object (one for all the inputs) / the executor is used again after a failure, in this call and the next
+            outcomes = [rng.pick(["ok", "F"]) for _ in range(n)]
+            outcomes[-1] = "ok"
+            if "F" not in outcomes:
+                outcomes[rng.randint(0, n - 2)] = "F"
         if style in ("stop0", "stopmid") and rng.chance(0.3):
             j = rng.randint(0, n - 1)
             if outcomes[j] == "ok":
@@ -2083,6 +2612,8 @@ def stop_first_script(rng: common.Rng, n: int, n_procs: int, outcomes: list[str]
 
 def describe_hist(case) -> str:
     who = case["callables"] if case["api"] == "callable" else case["discs"]
+    if "execute" in case:
+        who = f"{who} execute={case['execute']} raising-in={'_compute_jacobian' if case.get('gate_on') == 'jac' else '_run'}"
     calls = "; ".join(f"execute({c['xs']}) outcomes={''.join(o[0] for o in c['outcomes'])} completion={[a[1] for a in c['script'] if a[0] == 'F']}"
                       f"{' lazy-callbacks' if c.get('lazy') else ''}" for c in case["calls"])
     return f"ONE {case['api']} executor {case['backend']} n_processes={case['n_procs']} workers={who}: {calls}"
@@ -2091,7 +2622,8 @@ def describe_hist(case) -> str:
 def shrink_hist_case(case, key: str):
     def fails(c) -> bool:
         try:
-            return any(k == key for k, _ in hist_oracle(c, run_hist_case(c)))
+            with short_waits():
+                return any(k == key for k, _ in hist_oracle(c, run_hist_case(c)))
         except Exception:  # noqa: BLE001
             return False
 
@@ -2150,6 +2682,11 @@ def check_hist_cases(res: Result, cases: list[dict[str, Any]], deadline: float) 
         res.count(f"{st}:{case['backend']}")
         res.count(f"{st}:calls={len(case['calls'])}")
         res.count(f"hist:n_processes={case['n_procs']}")
+        if "execute" in case:
+            res.count(f"{st}:execute={case['execute']}")
+        if any("F" in c["outcomes"][:-1] for c in case["calls"][:-1]) or (
+                case["api"] in ("exec1", "lin1") and any("F" in c["outcomes"][:-1] for c in case["calls"])):
+            res.count(f"{st}:discipline-used-again-after-a-swallowed-failure")
         first = case["calls"][0]["outcomes"]
         if "S" in first:
             res.count(f"{st}:first-call-re-raises-at-{'task0' if first[0] == 'S' else 'later-task'}")
@@ -2176,6 +2713,10 @@ def check_hist_cases(res: Result, cases: list[dict[str, Any]], deadline: float) 
                 want = hist_result_string(case, obs)
                 if ans[-1] != want:
                     d = f"model result `{ans[-1]}`, real `{want}`"
+            if d is None and "deviation" not in obs and "failed_status" in obs and case["backend"] == "thread":
+                flags = model_failed_flags(ans)
+                if flags != obs["failed_status"]:
+                    d = f"execution status FAILED of the discipline objects after the call: model {flags}, real {obs['failed_status']}"
             if d is not None and d != SKIP:
                 d = f"call {k + 1} (`{obs['lines'][0]}`): {d}"
             diff = d
@@ -2189,7 +2730,7 @@ def check_hist_cases(res: Result, cases: list[dict[str, Any]], deadline: float) 
                 res.violate("correspondence", f"hist-{case['api']}-model-vs-impl",
                             f"session model (fresh queues per call) and implementation disagree: {diff} [{describe_hist(case)}]"[:1100],
                             {"kind": "hist", "case": case, "protocol_lines": [o["lines"] for o in run["calls"]], "difference": diff,
-                             "correspondence": "Driver/C13.lean init/call + transitions S/T/F/C/X + result"})
+                             "correspondence": "Driver/C13.lean init/call (einit/ecall for discipline executors) + transitions S/T/F/C/X + result"})
 
 
 # ----------------------------------------------------------------------------- shared cache: execute + linearize interleavings
@@ -2809,6 +3350,12 @@ def run(ctx) -> Result:
         "processes, n_processes 1-3, first call ending by a re-raised exception at task 0 / a middle task with results left unread, "
         "then calls with other inputs); workers sharing one MemoryFullCache that execute then linearize their own input under forced "
         "interleavings of the cache writes (DiscParallelLinearization, execute-then-linearize tasks, execution then linearization); "
+        "DiscParallelExecution/Linearization with every documented option (execute=False/True, threads/processes, n_processes, "
+        "wait_time_between_fork, one callback or a list, task_submitted_callback, exceptions_to_re_raise), tasks failing in `_run` or in "
+        "`_compute_jacobian`, one discipline object used again after a failing task (same call: one discipline over n inputs with fewer "
+        "workers than tasks; next call on the same executor), disciplines working in place on their input array; MDOParallelChain "
+        "(execute and linearize, use_deep_copy on/off, threads/processes, n_processes 1..n) whose disciplines scale their input array in "
+        "place while others read it, under forced orders of the bodies; "
         "a case is non-trivial when it has >= 2 tasks; distinct by (configuration, script)"
     )
     res.assumptions = [
@@ -2818,6 +3365,9 @@ def run(ctx) -> Result:
         "return or a gated task that is not released in time discards the run, which is repeated once with doubled waits and "
         "otherwise makes the check exit 2 (never 0 or 1); sleep ladders only bias the completion order",
         "task functions are deterministic functions of their input (a repeated DOE sample fails at all its occurrences or at none)",
+        "disciplines that write into their input are in the quantifier where the API makes the tasks independent: own input arrays per "
+        "task (DiscParallelExecution/Linearization: `the inputs must be independent objects`), MDOParallelChain with use_deep_copy=True "
+        "or forked workers; use_deep_copy=False with threads and a writing discipline is a probe (compared with the model, never a verdict)",
     ]
     rng = ctx.rng
     span = ctx.deadline - ctx.t0
@@ -2845,8 +3395,22 @@ def run(ctx) -> Result:
     doe_cases += [gen_doe_case(rng, "gated") for _ in range(n_doe)] + [gen_doe_case(rng, "ladder") for _ in range(n_doe // 3)]
     timed("doe", check_doe_cases, res, doe_cases, ctx.t0 + span * 0.7)
     disc_cases = [c["case"] for c in corpus if c.get("kind") == "disc"]
+    # one discipline object used for the tasks that follow a failing one (fewer workers than tasks), every
+    # `execute` option of DiscParallelLinearization, failing execution and failing linearization
+    k = 10 if ctx.thorough else 1
+    for ex in (False, True):
+        for np_ in (1, 2):
+            disc_cases += [gen_disc_case(rng, "lin1", execute=ex, fail_some=True, n_procs=np_) for _ in range(k)]
+    disc_cases += [gen_disc_case(rng, "exec1", fail_some=True, n_procs=1) for _ in range(k)]
     disc_cases += [gen_disc_case(rng) for _ in range(800 if ctx.thorough else 60)]
-    timed("disc", check_disc_cases, res, disc_cases, ctx.t0 + span * 0.85)
+    timed("disc", check_disc_cases, res, disc_cases, ctx.t0 + span * 0.82)
+    # parallel chains whose disciplines work in place on the input they are handed, forced orders of the bodies
+    chainip_cases = [c["case"] for c in corpus if c.get("kind") == "chainip"]
+    for backend in ("thread", "process"):
+        for api in ("chain", "chainlin"):
+            chainip_cases += [gen_chainip_case(rng, backend, True, api, n_procs=1, writer_first=True) for _ in range(k)]
+    chainip_cases += [gen_chainip_case(rng) for _ in range(400 if ctx.thorough else 36)]
+    timed("chainip", check_chainip_cases, res, chainip_cases, ctx.t0 + span * 0.86)
     cache_cases = [c["case"] for c in corpus if c.get("kind") == "cache"]
     cache_cases += [gen_cache_case(rng) for _ in range(400 if ctx.thorough else 24)]
     timed("cache", check_cache_cases, res, cache_cases, ctx.t0 + span * 0.92)
@@ -2862,6 +3426,12 @@ def run(ctx) -> Result:
             for style in ("stop0", "stopmid"):
                 for _ in range(k):
                     hist_cases.append(gen_hist_case(rng, backend, "callable", n_procs=np_, first_style=style))
+    # a discipline object that failed (swallowed failure) is used again: in the same call (one discipline, forked workers,
+    # fewer workers than tasks) and in the next call (threads run the caller's objects), with execute=False and True
+    for ex in (False, True):
+        hist_cases += [gen_hist_case(rng, "thread", "lin", first_style="failsome", execute=ex) for _ in range(2 * k)]
+        hist_cases += [gen_hist_case(rng, "process", "lin1", first_style="failsome", execute=ex, n_procs=np_) for np_ in (1, 2) for _ in range(k)]
+    hist_cases += [gen_hist_case(rng, "thread", "exec", first_style="failsome") for _ in range(k)]
     hist_cases += [gen_hist_case(rng, "thread", api) for api in ("callable", "exec", "exec", "lin", "lin") for _ in range(5 * k)]
     hist_cases += [gen_hist_case(rng, "process", api) for api in ("exec", "lin", "exec1", "lin1") for _ in range(k)]
     timed("hist", check_hist_cases, res, hist_cases, ctx.t0 + span * 0.97)
@@ -2918,6 +3488,19 @@ def replay(path: str) -> int:
             print("model:", common.run_lean_driver(PID, obs["lines"])[-1])
         for k, m in bad:
             print("ORACLE FAILS:", k, m[:600])
+        return 1 if bad else 0
+    if rp.get("kind") == "chainip":
+        case = rp["case"]
+        obs = run_chainip_case(case)
+        bad = chainip_oracle(case, obs)
+        print("case:", describe_chainip(case), "" if chainip_in_scope(case) else "(probe: outside the property's quantifier)")
+        print("impl:", chainip_result_string(case, obs), "| chain input afterwards:", obs.get("chain_x"), "caller's array:", obs.get("caller_x"),
+              "| disciplines FAILED:", obs.get("failed_status"), "hang:", obs["hang"])
+        print("each discipline alone on a copy of the chain input (value, Jacobian):", obs.get("twin"), obs.get("twin_error", ""))
+        if obs["hang"] is None:
+            print("model:", common.run_lean_driver(PID, obs["lines"])[-1])
+        for k, m in bad:
+            print("ORACLE FAILS:", k, m[:700])
         return 1 if bad else 0
     if rp.get("kind") == "fd":
         case = rp["case"]
